@@ -278,16 +278,6 @@ func (m msgServer) Acknowledgement(
 ) (*packettypes.MsgAcknowledgementResponse, error) {
 	ctx := sdk.UnwrapSDKContext(goCtx)
 
-	// Retrieve callbacks from router
-	cbs, ok := m.k.RoutingKeeper.Router.GetRoute(routingtypes.Port(msg.Packet.Port))
-	if !ok {
-		return nil, errorsmod.Wrapf(
-			routingtypes.ErrInvalidRoute,
-			"route not found to module: %s",
-			msg.Packet.Port,
-		)
-	}
-
 	// Perform TAO verification
 	if err := m.k.PacketKeeper.AcknowledgePacket(ctx, msg.Packet, msg.Acknowledgement, msg.ProofAcked, msg.ProofHeight); err != nil {
 		return nil, errorsmod.Wrap(
@@ -296,14 +286,28 @@ func (m msgServer) Acknowledgement(
 		)
 	}
 
-	// Perform application logic callback
-	_, err := cbs.OnAcknowledgementPacket(ctx, msg.Packet, msg.Acknowledgement)
-	m.verifCallback(ctx, "ack", msg.Packet, msg.Acknowledgement, err)
-	if err != nil {
-		return nil, errorsmod.Wrap(
-			err,
-			"acknowledge packet callback failed",
-		)
+	// the application that sent the packet lives on the source chain only: a relay
+	// chain just stores the acknowledgement for the next hop (mirrors RecvPacket)
+	if msg.Packet.GetSourceChain() == m.k.ClientKeeper.GetChainName(ctx) {
+		// Retrieve callbacks from router
+		cbs, ok := m.k.RoutingKeeper.Router.GetRoute(routingtypes.Port(msg.Packet.Port))
+		if !ok {
+			return nil, errorsmod.Wrapf(
+				routingtypes.ErrInvalidRoute,
+				"route not found to module: %s",
+				msg.Packet.Port,
+			)
+		}
+
+		// Perform application logic callback
+		_, err := cbs.OnAcknowledgementPacket(ctx, msg.Packet, msg.Acknowledgement)
+		m.verifCallback(ctx, "ack", msg.Packet, msg.Acknowledgement, err)
+		if err != nil {
+			return nil, errorsmod.Wrap(
+				err,
+				"acknowledge packet callback failed",
+			)
+		}
 	}
 
 	defer func() {
